@@ -194,8 +194,10 @@ class DataType(metaclass=_DataTypeMeta):
         Raises `BufferEmptyError` if stream returns no data.
         """
         data = stream.read(size)
-        if not data:
+        if not data and size != 0:
             raise BufferEmptyError()
+        if len(data) < size:
+            raise DataError(f"Not enough data, expected {size} bytes, got {len(data)}")
         return data
 
     def __repr__(self) -> str:
